@@ -51,7 +51,7 @@ func (c14) Mandatory(tier string) []string {
 		}
 	}
 	return append(m, "control-position:first", "control-position:middle-or-last", "control-name:./control", "control-name:control", "extra-members", "via:Load", "via:LoadFile",
-		"reject:version-1.0", "reject:version-3.0", "reject:version-0.93", "reject:version-20.0", "reject:version-21.5", "reject:version-200.0", "reject:version-12.0", "reject:version-22", "reader:eof-with-last-member-byte", "reader:one-header-read-fails-once", "via:LoadFile-symlink", "control-tar:nested-control-first", "reject:no-debian-binary", "reject:no-control", "reject:no-data", "reject:control-tar:no-control-file", "reject:control-tar:empty", "reject:control-tar:control-is-a-directory", "reject:via-LoadFile", "extra-member-with-a-bare-standard-name", "data:symlink", "data:dir", "data:empty-file", "repeat-loads-agree", "two-packages-open", "control:after-large-md5sums", "control:straddles-32KiB", "member-mtime>=2^31", "xz-dict-limit-lowered-and-restored")
+		"reject:version-1.0", "reject:version-3.0", "reject:version-0.93", "reject:version-20.0", "reject:version-21.5", "reject:version-200.0", "reject:version-12.0", "reject:version-22", "reader:eof-with-last-member-byte", "reader:one-header-read-fails-once", "via:LoadFile-symlink", "control-tar:nested-control-first", "reject:no-debian-binary", "reject:no-control", "reject:no-data", "reject:control-tar:no-control-file", "reject:control-tar:empty", "reject:control-tar:control-is-a-directory", "reject:via-LoadFile", "extra-member-with-a-bare-standard-name", "data:symlink", "data:dir", "data:empty-file", "repeat-loads-agree", "two-packages-open", "two-packages-open-after-a-double-close", "control:after-large-md5sums", "control:straddles-32KiB", "member-mtime>=2^31", "xz-dict-limit-lowered-and-restored")
 }
 
 func codecName(e string) string {
@@ -430,7 +430,7 @@ func (p c14) run(c *core.C, t *core.T, cs c14Case) {
 		}
 	}
 	// two packages open at the same time (same codecs): both loaded before either is read
-	{
+	twoOpen := func(when, tag string) {
 		m2, doc2, wantSrc2 := genDebModel(core.NewRand(cs.Seed, "second"), cs.CExt, cs.DExt)
 		members2, err2 := m2.members()
 		if err2 == nil {
@@ -438,14 +438,15 @@ func (p c14) run(c *core.C, t *core.T, cs c14Case) {
 			da, erra := deb.Load(bytes.NewReader(raw), "a.deb")
 			db, errb := deb.Load(bytes.NewReader(raw2), "b.deb")
 			if erra != nil || errb != nil {
-				c.Failf("loading two well-formed packages one after the other failed: %v / %v", erra, errb)
+				c.Failf("loading two well-formed packages one after the other%s failed: %v / %v", when, erra, errb)
 			} else {
-				c14CheckLoaded(c, "first of two open packages", da, members, m, doc, wantSrc, true)
-				c14CheckLoaded(c, "second of two open packages", db, members2, m2, doc2, wantSrc2, true)
-				c.Cover("two-packages-open")
+				c14CheckLoaded(c, "first of two open packages"+when, da, members, m, doc, wantSrc, true)
+				c14CheckLoaded(c, "second of two open packages"+when, db, members2, m2, doc2, wantSrc2, true)
+				c.Cover(tag)
 			}
 		}
 	}
+	twoOpen("", "two-packages-open")
 	// LoadFile
 	path := filepath.Join(t.WorkDir, "c14.deb")
 	os.WriteFile(path, raw, 0o644)
@@ -463,6 +464,8 @@ func (p c14) run(c *core.C, t *core.T, cs c14Case) {
 		}
 		d.Close()
 		c.Cover("via:LoadFile")
+		// ... and right after a package was released through both of its handles, two packages are open again
+		twoOpen(" (right after a package was closed through both handles LoadFile gave out)", "two-packages-open-after-a-double-close")
 	}
 	// the same file through a symbolic link
 	lp := filepath.Join(t.WorkDir, "c14-link.deb")
